@@ -357,6 +357,26 @@ def r5(cx, run):
         good = pure and vq in reads and aq in reads
         run.check(good, "R5", key + " duration_secs", "duration := %s ; reads %s" % (sym.show(e), sorted(reads & {vq, aq})),
                   "duration_secs does not derive from a pure function of both sample queues (callees %s, reads %s, pure=%s)" % (sorted(callees), sorted(reads), pure), mir.loc_of(st))
+        # each track's end time pairs the queue with its *own* last-delta field (the field the queue's writer updates
+        # together with the previous sample's duration)
+        pairing = last_delta_pairing(cx, (vq, aq))
+        deltas = set(pairing.values())
+        npair = 0
+        for c in sorted(callees):
+            for f in sorted(g.reach([c])):
+                fb = u.bodies[f]
+                for cbb, ct, cname, cinfo in mir.calls(fb):
+                    args = [sym.expr(fb, a) for a in ct["args"]]
+                    qs = {q for q in (vq, aq) for a in args for y in sym.walk(a) if isinstance(y, tuple) and len(y) > 1 and y[0] in ("load", "refplace") and y[1] == "arg1." + q}
+                    ds = {d for d in deltas for a in args for y in sym.walk(a) if isinstance(y, tuple) and len(y) > 1 and y[0] in ("load", "refplace") and y[1] == "arg1." + d}
+                    if len(qs) == 1 and ds:
+                        q = next(iter(qs))
+                        npair += 1
+                        run.check(ds == {pairing.get(q)}, "R5", key + " end-time pairing " + q, "end of `%s` uses its own last delta `%s`" % (q, pairing.get(q)),
+                                  "the end time of queue `%s` is computed with %s, but the delta its writer maintains is `%s`" % (q, sorted(ds), pairing.get(q)), mir.loc_of(ct))
+        if len(pairing) == 2 and callees:
+            run.check(npair >= 2, "R5", key + " end-time pairing sites", "%d queue/last-delta pairings found in the duration function" % npair,
+                      "could not find where the duration function combines each queue with a last-delta field (found %d)" % npair, mir.loc_of(st))
         # built only on the Ok edge of the finalize call
         dom = mir.dominators(b)
         ts = [t for t in flow.try_sites(b) if t["src"] and t["src"][0] == "call" and len(t["src"]) > 3 and t["src"][3] in cx.u.bodies
@@ -364,6 +384,25 @@ def r5(cx, run):
         good = any(t["cont"] in dom[bb] for t in ts)
         run.check(good, "R5", key + " after-ok-finalize", "statistics built only on the Continue edge of `finalize(..)?`",
                   "MuxerStats is built on a path that does not pass the Ok edge of the finalising call", mir.loc_of(st))
+
+
+def last_delta_pairing(cx, qs):
+    """{queue field: state field that receives the same delta as the previous sample's patched duration in the queue's writer}"""
+    u = cx.u
+    out = {}
+    for q in qs:
+        cands = set()
+        for p, b in cx.live.items():
+            sites = cx.st.sites.get(p, [])
+            durs = [s_ for s_ in sites if s_[2][0] == ("arg", 1) and s_[2][1][:1] == (q,) and s_[2][1][-1:] == ("duration",) and s_[3].startswith("assign") and s_[4].get("k") == "assign"]
+            for d in durs:
+                e1 = sym.expr_rv(b, d[4]["rv"])
+                for s_ in sites:
+                    if s_[2][0] == ("arg", 1) and len(s_[2][1]) == 1 and s_[2][1][0] != q and s_[3].startswith("assign") and s_[4].get("k") == "assign" and sym.expr_rv(b, s_[4]["rv"]) == e1:
+                        cands.add(s_[2][1][0])
+        if len(cands) == 1:
+            out[q] = next(iter(cands))
+    return out
 
 
 def field_reads(body):
